@@ -95,7 +95,7 @@ def utf8_specials():
 def gen(tier, rng):
     quick = tier == 'quick'
     widths = WIDTHS_Q if quick else WIDTHS_T
-    reps = 12 if quick else 120
+    reps = 12 if quick else 400
 
     # ------------------------------------------------------------------ Limb
     for w in EDGE_WORDS + [0x0102030405060708, 0xf1e2d3c4b5a69788] + [limb_choice(rng) for _ in range(reps)]:
@@ -260,9 +260,10 @@ def gen(tier, rng):
                 yield f"c16.b.from_be_slice {bp} {xb(b)}"
                 yield f"c16.b.from_le_slice {bp} {xb(b[::-1])}"
             if not quick:
-                b = rbytes(rng, k)
-                yield f"c16.b.from_be_slice {bp} {xb(b)}"
-                yield f"c16.b.from_le_slice {bp} {xb(b)}"
+                for _ in range(3):
+                    b = rbytes(rng, k)
+                    yield f"c16.b.from_be_slice {bp} {xb(b)}"
+                    yield f"c16.b.from_le_slice {bp} {xb(b)}"
 
     # ------------------------------------------------------------------ boxed hex decoder, encoders, widen/shorten
     for bp in (list(range(0, 521)) if not quick else sorted(full | set(rng.sample(range(521), 40)))):
@@ -367,3 +368,17 @@ def gen(tier, rng):
         yield f"c16.u.serde_de {n} x"
         yield f"c16.u.serde_de {n} {xb((1 << 63).to_bytes(8, 'little') + body)}"
         yield f"c16.u.serde_de {n} {xb(nb.to_bytes(8, 'big') + body)}"
+
+
+def canon(line, out):
+    """`Int::<1>::from_i128(v)` for a value that FITS one limb: the property is met both by returning the
+    value and by refusing (a limb-count assertion like `Uint::from_u128`'s); both canonicalise to one
+    token.  A value that does not fit must be refused (L0 = panic) — nothing is canonicalised there, and
+    any other output for a fitting value stays as it is (so a wrong value is still a disagreement)."""
+    t = line.split()
+    if len(t) == 4 and t[0] == 'c16.i.from_prim' and t[1] == '1' and t[2] == 'i128':
+        v = int(t[3], 16)
+        sv = v - (1 << 128) if v >> 127 else v
+        if -(1 << 63) <= sv < (1 << 63) and out in ('panic', format(sv % (1 << 64), 'x')):
+            return 'value-or-refusal'
+    return out
